@@ -202,6 +202,12 @@ func (req *Request) Read(b *bufio.Reader) error {
 		if length > int(config.MCConf.BodyBig) {
 			if cmem.DBRL.FlushData.Size > int64(config.MCConf.FlushMax) {
 				logger.Warnf("ErrOOM key %s, size %d", req.Keys[0], length)
+				// the value still follows on the wire: skip it (and its terminator),
+				// otherwise its bytes would be parsed as the next commands
+				req.NoReply = parts[len(parts)-1] == "noreply"
+				if _, e := b.Discard(length + 2); e != nil {
+					return ErrNetworkError
+				}
 				return ErrOOM
 			}
 		}
